@@ -106,6 +106,49 @@ def txn_blocks(rng, pool, cfg=None):
     return prog
 
 
+def sp_orphan_blocks(rng, pool, cfg=None):
+    """delete-orphan members removed inside a SAVEPOINT that is rolled back, then touched again: owners with members, commit, (load),
+    begin_nested, removals (flushed or not), savepoint rollback, plain column changes on whatever is there, flush"""
+    r = lambda: rng.randrange(64)
+    fam = rng.choice(("q", "q", "h", "g", "b"))
+    mk = {"q": [["q_ops", r(), 0]], "h": [["mk_child", r(), 4 * rng.randrange(8)]], "g": [["g_ops", r(), 0]],
+          "b": [["mk", rng.choice((0, 1, 2)), 1 + 3 * rng.randrange(20)], ["mk_child", 0, 1 + 4 * rng.randrange(8)],
+                ["mk_child", 0, 2 + 4 * rng.randrange(8)]]}[fam]
+    rm = {"q": lambda: ["q_ops", 2 * rng.randrange(8), 2], "h": lambda: ["h_doc", r(), 1 + 2 * rng.randrange(8)],
+          "g": lambda: ["g_ops", r(), r()], "b": lambda: ["bs_remove", r(), r()]}[fam]
+    prog = list(mk)
+    if rng.random() < 0.4:
+        prog += [[rng.choice(("mk", "q_ops", "g_ops")), r(), 0]]
+    prog.append(["commit", 0, 0])
+    if rng.random() < 0.5:
+        prog.append([rng.choice(("requery", "lazy")), r(), r()])
+    prog.append(["begin_nested", 0, 0])
+    if rng.random() < 0.3:
+        prog.append(["set", r(), r()])
+    for _ in range(rng.randint(1, 2)):
+        prog.append(rm())
+    if rng.random() < 0.4:
+        prog.append(["flush", 0, 0])
+    prog.append([rng.choice(("sp_rollback", "sp_rollback", "sp_rollback", "sp_commit", "rollback")), 0, 0])
+    for _ in range(rng.randint(1, 4)):
+        prog.append(["set", r(), r()])
+    prog.append([rng.choice(("flush", "commit")), 0, 0])
+    prog += [[rng.choice(pool), r(), r()] for _ in range(rng.randint(0, 6))]
+    return prog
+
+
+def mixed(*shapes):
+    """(probability, shape) pairs; the remainder goes to the last one"""
+    def shape(rng, pool, cfg=None):
+        x = rng.random()
+        for pr, fn in shapes[:-1]:
+            if x < pr:
+                return fn(rng, pool, cfg)
+            x -= pr
+        return shapes[-1][1](rng, pool, cfg)
+    return shape
+
+
 # a history counts as non-trivial for a property only if the behaviour the property is about was actually exercised (measured from the
 # per-run counters): C = counters
 NONTRIVIAL = {
